@@ -123,7 +123,9 @@ def main():
     run_obligations(run, obs)
     # concrete companion (sampling, not a solver verdict): the key does not depend on the interpreter process
     run_probes(run, [(Ob('hash_across_processes', 'C12_hashprobe.py', 'hash_across_processes', env={}),
-                      'hash_across_processes(4)')])
+                      'hash_across_processes(4)'),
+                     (Ob('hash_distinguishes', 'C12_hashprobe.py', 'hash_distinguishes', env={}),
+                      'hash_distinguishes(40)')])
     for o in obs[:12]:
         run.sample(dict(obligation=o.name, harness=o.file, func=o.func, env=o.env))
     run.finish(coverage=dict(explanation=(
